@@ -243,7 +243,12 @@ func judgeC17(c *c17Case, obs *c17Obs, o *Outcome) {
 			o.Class("skipped")
 			return
 		}
-		o.Fail("C17/harness", "%s", obs.Note)
+		if strings.Contains(obs.Note, "could not establish") {
+			// every client dials a working server: a session that cannot be established is a symptom, not a harness problem
+			o.Fail("C17/session-not-established", "%s", obs.Note)
+		} else {
+			o.Fail("C17/harness", "%s", obs.Note)
+		}
 		return
 	}
 	o.NonTrivial = len(c.Clients) >= 3 && len(kinds) >= 2
